@@ -1,15 +1,65 @@
-"""Process pool for running the implementation on many cases (fork; workers inherit sys.path)."""
+"""Process pool for running the implementation on many cases (fork; workers inherit sys.path).
+
+A worker that dies (segfault, os._exit, OOM kill) must not hang the check: the pool is a
+ProcessPoolExecutor, and when it breaks the remaining items are run one by one, each in its
+own process, so that the crashing case is attributed ({"error": "worker process died ..."}).
+"""
 from __future__ import annotations
 
 import multiprocessing as mp
 import os
+from concurrent.futures import ProcessPoolExecutor
+from concurrent.futures.process import BrokenProcessPool
+
+ITEM_TIMEOUT = int(os.environ.get("VERIF_ITEM_TIMEOUT", "45"))      # one case: milliseconds normally
+CHUNK_TIMEOUT = int(os.environ.get("VERIF_CHUNK_TIMEOUT", "240"))
+
+
+def _run_chunk(args):
+    fn, chunk = args
+    return [fn(x) for x in chunk]
+
+
+def _one(fn, item):
+    ctx = mp.get_context("fork")
+    with ProcessPoolExecutor(1, mp_context=ctx) as ex:
+        fut = ex.submit(fn, item)
+        try:
+            return fut.result(timeout=ITEM_TIMEOUT)
+        except BrokenProcessPool:
+            return {"error": "worker process died while running this case (crash in the implementation)", "miss": False}
+        except TimeoutError:
+            for p in list(ex._processes.values()):
+                p.kill()
+            return {"error": f"case did not finish within {ITEM_TIMEOUT}s (non-termination)", "miss": False}
 
 
 def pmap(fn, items, procs: int | None = None, chunksize: int = 64):
     items = list(items)
     procs = procs or min(16, os.cpu_count() or 1)
-    if len(items) < 200 or procs == 1:
+    if procs == 1 or len(items) <= 1 or (chunksize > 1 and len(items) < 200):
         return [fn(x) for x in items]
+    chunks = [items[i:i + chunksize] for i in range(0, len(items), chunksize)]
     ctx = mp.get_context("fork")
-    with ctx.Pool(procs) as pool:
-        return pool.map(fn, items, chunksize=chunksize)
+    out: list = [None] * len(chunks)
+    broken = False
+    with ProcessPoolExecutor(procs, mp_context=ctx) as ex:
+        futs = [ex.submit(_run_chunk, (fn, ch)) for ch in chunks]
+        for n, f in enumerate(futs):
+            try:
+                out[n] = f.result(timeout=CHUNK_TIMEOUT)
+            except BrokenProcessPool:
+                broken = True
+            except TimeoutError:
+                broken = True
+                break
+        if broken:
+            for f in futs:
+                f.cancel()
+            for p in list((ex._processes or {}).values()):
+                p.kill()
+    if broken:
+        for n, ch in enumerate(chunks):
+            if out[n] is None:
+                out[n] = [_one(fn, x) for x in ch]
+    return [x for ch in out for x in ch]
